@@ -213,7 +213,7 @@ class Suffix:
         st[("S", x)] = base | {s}
         st[("S", s)] = base | {x} if v != ALL else frozenset([x])
         for k, w in list(st.items()):
-            if k[0] in ("S", "T", "R", "C", "NU", "NL") and w != ALL and s in w and k != ("S", x):
+            if k[0] in ("S", "T", "R", "C", "NU", "NL", "P") and w != ALL and s in w and k != ("S", x):
                 st[k] = w | {x}
 
     def _stmt(self, body, st, s, escaped):
@@ -232,13 +232,15 @@ class Suffix:
             src, proj = pl["l"], pl.get("p", [])
             ks = [p["k"] for p in proj]
             if not proj:
-                for kind in ("T", "R", "C", "NU", "NL", "TC"):
+                for kind in ("T", "R", "C", "NU", "NL", "TC", "P"):
                     if (kind, src) in st:
                         new[(kind, x)] = st[(kind, src)]
                 if is_slice(body.local_ty(src)) and src not in escaped and src != x:
                     eq = src
             elif ks == ["field"] and proj[0]["i"] == 0 and ("T", src) in st:
                 new[("S", x)] = st[("T", src)]
+            elif ks == ["deref"] and ("P", src) in st and is_slice(body.local_ty(x)):
+                new[("S", x)] = st[("P", src)]
             elif ks == ["downcast", "field"] and proj[1]["i"] == 0:
                 if proj[0].get("variant") == "Continue" and ("C", src) in st:
                     new[("T", x)] = st[("C", src)]
@@ -251,8 +253,22 @@ class Suffix:
                     new[("S", x)] = st[("R", src)]
         elif rv["k"] == "ref" and rv.get("bk") == "shared":
             pl = rv["place"]
-            if [p["k"] for p in pl.get("p", [])] == ["deref"] and is_slice(body.local_ty(pl["l"])) and pl["l"] not in escaped and pl["l"] != x:
+            ks = [p["k"] for p in pl.get("p", [])]
+            proj = pl.get("p", [])
+            if ks == ["deref"] and is_slice(body.local_ty(pl["l"])) and pl["l"] not in escaped and pl["l"] != x:
                 eq = pl["l"]
+            elif ks == ["downcast", "field", "field"] and proj[1]["i"] == 0 and proj[2]["i"] == 0:
+                # `ref tail` binding of a match guard: a pointer to the remainder inside the result
+                src = pl["l"]
+                if proj[0].get("variant") == "Ok" and ("R", src) in st:
+                    new[("P", x)] = st[("R", src)]
+                elif proj[0].get("variant") == "Continue" and ("C", src) in st:
+                    new[("P", x)] = st[("C", src)]
+            elif ks == ["field"] and proj[0]["i"] == 0 and ("T", pl["l"]) in st:
+                new[("P", x)] = st[("T", pl["l"])]
+            elif not ks and is_slice(body.local_ty(pl["l"])) and pl["l"] not in escaped:
+                v0 = st.get(("S", pl["l"]))
+                new[("P", x)] = (frozenset() if v0 in (None, ALL) else v0) | {pl["l"]}
         elif rv["k"] == "aggregate":
             ops = rv.get("ops", [])
             if rv.get("agg") == "tuple" and ops:
